@@ -458,7 +458,7 @@ func (w *World) handedOver(owner, field string) (bool, string) {
 }
 
 func checkC07(w *World, r *Report) {
-	r.Explanation = "Structural clause of C07: (R-1) every in-memory controller field that is written while a block executes is one of — block-scoped (a store to it lies on every path to a normal return of a BeginBlock handler), persisted (on the start-up path — constructor, and Info for the application — it receives a value data-dependent on a persistent read: meta store getters, tm-db Get, ledger reads; loads of other controller fields count only if those fields are themselves persisted on that path), or handed over (nil at every Commit return); (R-2) what Commit makes durable is what start-up loads: each persisted field's Commit-time store is paired with a durable write of the same value, and the codecs of the persisted records (BlockContext JSON, GovParams proto) cover every field symmetrically; (R-3) write-back discipline (C01 D-6): an overlay object mutated in place is marked in its overlay on every success path, so the overlay cache — which a restart empties — never holds state the tree lacks."
+	r.Explanation = "Structural clause of C07: (R-1) every in-memory controller field that is written while a block executes is one of — block-scoped (a store to it lies on every path to a normal return of a BeginBlock handler), persisted (on the start-up path — constructor, and Info for the application — it receives a value data-dependent on a persistent read: meta store getters, tm-db Get, ledger reads; loads of other controller fields count only if those fields are themselves persisted on that path), or handed over (nil at every Commit return); (R-2) what Commit makes durable is what start-up loads: each persisted field's Commit-time store is paired with a durable write of the same value, and the codecs of the persisted records (BlockContext JSON, GovParams proto) cover every field symmetrically; (R-3) write-back discipline (C01 D-6): an overlay object mutated in place is marked in its overlay on every success path, so the overlay cache — which a restart empties — never holds state the tree lacks; (R-4) nil-ness that block execution tests survives the store: for every slice field of a ledger item that a consensus function compares with nil, the item's decoder hands the wire field on as it is (absent = nil), not a copy."
 	r.NotCovered = "equality of results after a restart (a two-run comparison); the edge where governance limits change in the very block before the restart; restart inside a block (C08)."
 	x := NewExecCtx(w)
 	r1(w, r, x)
@@ -1183,7 +1183,7 @@ func ownFrameKind(w *World, v ssa.Value) (string, string) {
 }
 
 func checkC08(w *World, r *Report) {
-	r.Explanation = "Structural clause of C08: (K-1) the durable writes reachable from RigoApp.Commit are enumerated in execution order; the record that Info reads back (PutLastBlockContext) is written after all four controllers' commits and after the version-equality test, and nothing but the legacy height record follows it — so a crash before it leaves Info reporting the previous block; (K-2) divergence is detected: the version-equality tests in the application, governance and stake commits panic / fail before the meta record is written, RigoApp.BeginBlock and EVMCtrler.BeginBlock test height continuity before any effect, and Info reports what the meta store holds; (K-3) some function on the start-up path must bring every store back to the persisted height (version rollback / overwrite, or a comparison of store versions with the meta height) — absent on this tree, recorded as one known finding per gap between consecutive durable writes of a commit; (K-4) what Commit writes is what a restarted node reads: the last-block record is written and read as one type whose MarshalJSON/UnmarshalJSON use identical wire structs and map every wire field from/to the same record field, every encoding/json decode target in the state packages is decodable by encoding/json (no non-empty interface / chan / func component outside a type with its own unmarshaller), and Info reports the record's height and app hash; (K-5) the crash point just after a commit is a restart at a block boundary: every controller field written during block execution is block-scoped, rebuilt from durable state at start-up or handed over, and every record start-up reads is written by every commit with the value kept in memory (C07 R-1, R-2)."
+	r.Explanation = "Structural clause of C08: (K-1) the durable writes reachable from RigoApp.Commit are enumerated in execution order; the record that Info reads back (PutLastBlockContext) is written after all four controllers' commits and after the version-equality test, and nothing but the legacy height record follows it — so a crash before it leaves Info reporting the previous block; (K-2) divergence is detected: the version-equality tests in the application, governance and stake commits panic / fail before the meta record is written, RigoApp.BeginBlock and EVMCtrler.BeginBlock test height continuity before any effect, and Info reports what the meta store holds; (K-3) some function on the start-up path must bring every store back to the persisted height (version rollback / overwrite, or a comparison of store versions with the meta height) — absent on this tree, recorded as one known finding per gap between consecutive durable writes of a commit; (K-4) what Commit writes is what a restarted node reads: the last-block record is written and read as one type whose MarshalJSON/UnmarshalJSON use identical wire structs and map every wire field from/to the same record field, every encoding/json decode target in the state packages is decodable by encoding/json (no non-empty interface / chan / func component outside a type with its own unmarshaller), and Info reports the record's height and app hash; (K-5) the crash point just after a commit is a restart at a block boundary: every controller field written during block execution is block-scoped, rebuilt from durable state at start-up or handed over, and every record start-up reads is written by every commit with the value kept in memory (C07 R-1, R-2); what only the overlay cache holds is lost by the crash, so an item changed in place is marked and tested nil-ness survives the store (C07 R-3, R-4)."
 	r.NotCovered = "that a replay after realignment reproduces the hashes; torn writes inside one store (LevelDB / iavl); unchecked write errors of the meta store (errcheck cross-reference)."
 	cm := needFn(r, "K-1", w, fref{"node", "RigoApp", "Commit"})
 	if cm == nil {
@@ -1483,7 +1483,7 @@ func startupLag(w *World, r *Report, rule string) {
 // ---------------------------------------------------------------- C10
 
 func checkC10(w *World, r *Report) {
-	r.Explanation = "Structural clause of C10: (U-1) the candidate list is rebuilt in BeginBlock from the committed delegatee tree, filtered by SelfPower >= AmountToPower(MinValidatorStake()), sorted with PowerOrderDelegatees (a total order: power, stake count, address), and truncated to min(len, MaxValidatorCnt()); (U-2) validatorUpdates is a merge-diff whose behaviour depends only on sign(compare(existing[i].Addr, newers[j].Addr)) and on TotalPower inequality: per branch the emitted (public key, power) and the index increments are compared with the decision table, both inputs are sorted with AddressOrderDelegatees (whose direction agrees with the merge) immediately before the call; (U-3) the new selection becomes lastValidators after the diff and the diff is what EndBlock returns to consensus; (U-4) the set the diff is computed against must survive a restart (C07 R-1)."
+	r.Explanation = "Structural clause of C10: (U-1) the candidate list is rebuilt in BeginBlock from the committed delegatee tree, filtered by SelfPower >= AmountToPower(MinValidatorStake()), sorted with PowerOrderDelegatees (a total order: power, stake count, address), and truncated to min(len, MaxValidatorCnt()); (U-2) validatorUpdates is a merge-diff whose behaviour depends only on sign(compare(existing[i].Addr, newers[j].Addr)) and on TotalPower inequality: per branch the emitted (public key, power) and the index increments are compared with the decision table, both inputs are sorted with AddressOrderDelegatees (whose direction agrees with the merge) immediately before the call; (U-3) the new selection becomes lastValidators after the diff and the diff is what EndBlock returns to consensus; (U-4) the set the diff is computed against must survive a restart (C07 R-1); (U-5) a deleted delegatee record is not written back on the same path; (U-6) an object of the candidate list (decoded from the committed tree) does not become the delegatee overlay's working object (C01 D-6 stale-copy)."
 	r.NotCovered = "the fold of updates over a history; Tendermint's acceptance rules; negative powers (TotalPower is non-negative by C11)."
 	u1(w, r)
 	u2(w, r)
